@@ -55,8 +55,13 @@ def run(checkers, cases, rule, bounds, max_violations=5, time_budget_s=None):
         try:
             with contextlib.redirect_stdout(_DEVNULL):
                 failed = checkers[name](inp)
-        except Exception as e:  # an exception escaping a checker is a checker error, not a violation
-            raise RuntimeError("checker %s crashed on %s: %r" % (name, json.dumps(inp, default=str)[:400], e)) from e
+        except Exception as e:
+            if type(e).__module__.split(".")[0] == "evo":
+                # evo's own exception escaped the checker: the code under test refused (or failed on) an input of a class
+                # the checker's generator only produces when the unchanged code accepts it -- reported with the input
+                failed = ["code_under_test_refused_a_valid_input: %s: %s" % (type(e).__name__, str(e)[:160])]
+            else:   # any other exception escaping a checker is a checker error, not a violation
+                raise RuntimeError("checker %s crashed on %s: %r" % (name, json.dumps(inp, default=str)[:400], e)) from e
         if failed:
             tag = failed[0].split(" ")[0] if isinstance(failed, list) else str(failed)
             if len(violations) < max_violations or not any(v["tag"] == tag for v in violations):
